@@ -60,6 +60,7 @@ def scenarios():
     add("pp_missing_include_is_warning", {}, gdl=PPERR)
     add("syntax_error", {"parseOk": 0}, gdl=SYNTAX)
     add("semantic_error", {"preCompileOk": 0}, gdl=SEMANTIC)
+    add("unknown_code_page", {"preCompileOk": 0}, gdl='#include "stddef.gdh"\ntable(glyph) c1 = codepoint("a", 99999); c4 = glyphid(7); endtable;\ntable(sub) c1 > c4; endtable;\n')
     add("font_missing", {"fontOk": 0}, fontname="nofont.ttf")
     add("font_garbage", {"fontOk": 0}, font_bytes=b"this is not a font" * 20)
     add("bad_version", {"optsOk": 0}, opts=["-v9"])
